@@ -52,6 +52,9 @@ struct World {
 
 pub struct C11 {
     world: Mutex<Option<World>>,
+    /// run as the engine-level part of C17: same schedules; the violations are reported under C17
+    /// (what is looked at there: a peer is remembered as useful exactly after a successful session)
+    registration_mode: bool,
 }
 
 #[derive(Clone, Debug, PartialEq)]
@@ -73,7 +76,10 @@ struct Net {
 
 impl C11 {
     pub fn new() -> Self {
-        C11 { world: Mutex::new(None) }
+        C11 { world: Mutex::new(None), registration_mode: false }
+    }
+    pub fn registration() -> Self {
+        C11 { world: Mutex::new(None), registration_mode: true }
     }
     fn build_world() -> anyhow::Result<World> {
         let rt = tokio::runtime::Builder::new_multi_thread().worker_threads(2).enable_all().build()?;
@@ -135,7 +141,10 @@ fn enabled(net: &Net) -> Vec<String> {
 impl Property for C11 {
     type Op = Op;
     fn id(&self) -> &'static str {
-        "C11"
+        if self.registration_mode { "C17" } else { "C11" }
+    }
+    fn case_prefix(&self) -> &'static str {
+        if self.registration_mode { "engine-" } else { "" }
     }
     fn parallel(&self) -> bool {
         false
@@ -232,6 +241,8 @@ impl Property for C11 {
             let mut fin_toggle = false;
             let mut accept_fail_kind = 0usize;
             // refused sync reports not yet followed up, per node (for the follow-up specification)
+            // C17 at the engine: a session that ended well at node m makes the peer a useful peer of the document there
+            let mut succeeded = [false; 2];
             let mut pending_report = [false; 2];
             // … and whether a session that started after the report already covers it
             let mut covered = [false; 2];
@@ -319,7 +330,12 @@ impl Property for C11 {
                                 CPhase::Declined(false) => Err(ConnectError::RemoteAbort(AbortReason::NotFound)),
                                 CPhase::Failed => Err(ConnectError::Connect { error: anyhow::anyhow!("connection lost") }),
                                 CPhase::InSession(_) => {
-                                    if fin_toggle { Ok(mk_finished(ids[other])) } else { Err(ConnectError::Sync { error: anyhow::anyhow!("session failed") }) }
+                                    if fin_toggle {
+                                        succeeded[n] = true;
+                                        Ok(mk_finished(ids[other]))
+                                    } else {
+                                        Err(ConnectError::Sync { error: anyhow::anyhow!("session failed") })
+                                    }
                                 }
                                 CPhase::Requesting => unreachable!(),
                             };
@@ -333,6 +349,7 @@ impl Property for C11 {
                             fin_toggle = !fin_toggle;
                             accept_fail_kind += 1;
                             let res = if fin_toggle {
+                                succeeded[n] = true;
                                 Ok(mk_finished(ids[other]))
                             } else if accept_fail_kind % 2 == 0 {
                                 Err(AcceptError::Sync { peer: ids[other], namespace: Some(nsid), error: anyhow::anyhow!("session failed") })
@@ -424,6 +441,19 @@ impl Property for C11 {
                 }
                 if let Some(v) = not_found_spec {
                     lines.push(Line::oracle("sconst not-syncing-is-declined-as-not-found", v));
+                }
+                // specification (C17 at the engine): the other node is remembered as a useful peer of the
+                // document exactly when a session with it has ended well at this node
+                for m in 0..2 {
+                    if syncing[m] {
+                        let got = match nodes[m]._sync.get_sync_peers(nsid).await {
+                            Ok(None) => "none".to_string(),
+                            Ok(Some(l)) => l.iter().map(|p| hex(p)).collect::<Vec<_>>().join(","),
+                            Err(e) => format!("err:{e:#}"),
+                        };
+                        let want = if succeeded[m] { hex(ids[1 - m].as_bytes()) } else { "none".to_string() };
+                        lines.push(Line::oracle(format!("sconst useful-peers-of-node{m}:{want}"), format!("useful-peers-of-node{m}:{got}")));
+                    }
                 }
                 lines.push(Line::oracle("sconst one-follow-up-per-refused-report", follow_up_spec.unwrap_or_else(|| "one-follow-up-per-refused-report".into())));
             }
